@@ -28,7 +28,7 @@ BASE = {
         "open": 7, "add": 8, "close": 5, "drop": 2.5, "reconnect": 3, "ping": 0.7,
         "adv_small": 4, "adv_min": 2, "adv_sweep": 1.5, "adv_phase": 0.7, "adv_long": 0.4,
         "restart": 0.8, "kill": 0.3, "bad": 0.8, "stall": 0.2, "jump": 0.0, "dbfault": 0.0,
-        "persona": 1.5, "bulk": 0.0, "third": 0.5, "resend": 1.0, "split": 0.2, "idle_sub": 0.2, "late_claim": 0.1, "reuse": 0.15, "exhaust": 0.0, "dormant": 0.05, "boundary": 0.05, "revenant": 0.05, "foreign": 0.05,
+        "persona": 1.5, "bulk": 0.0, "third": 0.5, "resend": 1.0, "split": 0.2, "idle_sub": 0.2, "late_claim": 0.1, "reuse": 0.15, "exhaust": 0.0, "dormant": 0.05, "boundary": 0.05, "revenant": 0.05, "foreign": 0.05, "volume": 0.06,
     },
 }
 
@@ -84,7 +84,7 @@ PROFILES = {
                    w={"close": 8, "release": 7, "persona": 3, "adv_long": 1.5, "adv_sweep": 2, "adv_small": 6, "jump": 0.6}),
     "C17": profile(unicode_p=0.5, welcome_p=0.7, share_ids_p=0.05, big_p=0.01,
                    w={"bad": 14, "connect_unbound": 2, "ping": 2, "third": 2.5, "list": 5, "reuse": 1.5}),
-    "C10": profile(steps=(6, 22), usage_p=0.6, nsides=(2, 3), names=3, autoping_p=0.1, hold_p=0.0,
+    "C10": profile(linger_p=0.0, steps=(6, 22), usage_p=0.6, nsides=(2, 3), names=3, autoping_p=0.1, hold_p=0.0,
                    w={"claim": 9, "release": 7, "close": 8, "open": 7, "add": 5, "adv_sweep": 1.5, "adv_long": 1.0,
                       "restart": 0.3, "kill": 0.3, "persona": 2.5, "third": 0.8, "bad": 0.2, "stall": 0, "idle_sub": 1.5}),
     "C11": profile(napps=(1, 2), names=2, literal_ids=1, autoping_p=0.2,
@@ -153,6 +153,7 @@ class Gen(object):
         self.counter = 0
         self.queue = []
         self.emitted = 0
+        self.lingering = []      # connections whose close handshake is done but not their TCP teardown
         self.mboxes = {a: [] for a in self.apps}    # known mailbox specs per app
         self.nps = {a: [] for a in self.apps}       # known allocated-name specs per app
         for a in self.apps:
@@ -201,6 +202,14 @@ class Gen(object):
         st = {"op": "send", "c": c.id, "m": m}
         if self.rng.random() < self.p["seg_p"]:
             st["seg"] = [round(self.rng.random(), 3) for _ in range(self.rng.randint(1, 3))]
+        if self.rng.random() < self.p.get("wire_p", 0.03):
+            # websocket-level variety: the message in several fragments, a ping on the way
+            w = {}
+            if self.rng.random() < 0.8:
+                w["frag"] = [round(self.rng.random(), 3) for _ in range(self.rng.randint(1, 3))]
+            if not w or self.rng.random() < 0.3:
+                w["ping"] = 1
+            st["wire"] = w
         c.last_cmd = m
         return st
 
@@ -326,6 +335,10 @@ class Gen(object):
 
     def a_drop(self, c, how=None):
         how = how or self.rng.choice(["abrupt", "abrupt", "clean"])
+        if how == "clean" and self.rng.random() < self.p.get("linger_p", 0.5):
+            # only the websocket close handshake now; the TCP teardown reaches the server later
+            how = "closing"
+            self.lingering.append(c.id)
         c.alive = False
         return [{"op": "drop", "c": c.id, "how": how}]
 
@@ -685,6 +698,39 @@ class Gen(object):
             out += self.a_close(x)
         return out
 
+    def a_volume(self):
+        """quantities well beyond the usual handful: many messages in one mailbox, many connections
+        of the two sides subscribed at once, many sweeps passing over an idle subscriber"""
+        r = self.rng
+        app = r.choice(self.apps)
+        s1, s2 = r.sample(self.sides, 2) if len(self.sides) >= 2 else (self.sides[0], self.sides[0])
+        a, out = self.a_connect(app=app, side=s1)
+        out += self.a_claim(a, self.name_for(a))
+        mb = {"ref": "claimed", "c": a.id}
+        out += self.a_open(a, mb)
+        kind = r.choice(["messages", "connections", "sweeps"])
+        if kind == "messages":
+            for _ in range(r.choice([17, 33, 65, 130])):
+                out += self.a_add(a)
+            b, o = self.a_connect(app=app, side=s2)
+            out += o + self.a_open(b, mb) + self.a_add(b)
+        elif kind == "connections":
+            cs = []
+            for i in range(r.choice([9, 17, 33])):
+                c, o = self.a_connect(app=app, side=s2 if i % 2 else s1)
+                out += o + self.a_open(c, mb)
+                cs.append(c)
+            out += self.a_add(a) + self.a_add(cs[-1])
+            for c in cs[: len(cs) // 2]:
+                out += self.a_drop(c, "abrupt")
+            out += self.a_add(a)
+        else:
+            out += self.a_add(a)
+            out.append({"op": "advance", "dt": round(r.uniform(3000, 12000), 3)})
+            b, o = self.a_connect(app=app, side=s2)
+            out += o + self.a_claim(b, a.claimed) + self.a_open(b, mb) + self.a_add(b)
+        return out
+
     def a_reuse(self):
         """a mailbox id lives twice: one side on two connections, the last close comes over one of
         them, the other lingers; then other sides use the same id again"""
@@ -792,6 +838,9 @@ class Gen(object):
             return self.queue.pop(0)
         if self.emitted >= self.nsteps:
             return None
+        if self.lingering and self.rng.random() < 0.35:
+            self.emitted += 1
+            return {"op": "drop", "c": self.lingering.pop(0), "how": "finish"}
         steps = self._choose()
         if not steps:
             steps = [self.time_step("adv_small")]
@@ -857,6 +906,7 @@ class Gen(object):
             acts.append(("boundary", w.get("boundary", 0)))
             acts.append(("revenant", w.get("revenant", 0)))
             acts.append(("foreign", w.get("foreign", 0)))
+            acts.append(("volume", w.get("volume", 0)))
             dead = [c for c in self.conns.values() if not c.alive and c.app is not None]
             if dead:
                 acts.append(("reconnect", w["reconnect"]))
@@ -906,6 +956,8 @@ class Gen(object):
             return self.a_revenant()
         if a == "foreign":
             return self.a_foreign()
+        if a == "volume":
+            return self.a_volume()
         if a in ("reconnect", "resend"):
             dead = [c for c in self.conns.values() if not c.alive and c.app is not None]
             return self.a_reconnect(r.choice(dead), resend=(a == "resend"))
